@@ -1,7 +1,7 @@
 (* Property C04: incremental reads guided by the missing-byte count reassemble the stream.
    Statements only; Reader/Reader.v is the reader loop, Lemmas/ReaderLemmas.v the induction over chunk lists. *)
 From Coq Require Import ZArith List Bool.
-From CP Require Import Core.Bytes Core.Result Frame.LVFrame Frame.Units Reader.Reader Lemmas.ReaderLemmas Lemmas.UnitInstances.
+From CP Require Import Core.Bytes Core.Result Frame.LVFrame Frame.Units Reader.Reader Lemmas.ReaderLemmas Lemmas.UnitLemmas Lemmas.UnitInstances.
 Open Scope Z_scope.
 
 (* generic: for any parser and any sequence of frames that round-trip with a suffix and whose proper prefixes are
